@@ -1,5 +1,5 @@
 (* C03/Proofs.v - soundness of the history checker (boolean reflection of every clause of [linearization]). *)
-From Coq Require Import List ZArith Bool Lia.
+From Coq Require Import List ZArith Bool Lia ZifyN ZifyNat ZifyBool.
 From BLB Require Import C03.Model.
 Import ListNotations.
 Open Scope Z_scope.
@@ -119,20 +119,82 @@ Proof.
   - intros S HS. rewrite forallb_forall in H6. apply prefixb_prefix, H6, HS.
 Qed.
 
-Lemma check_code_1 h : check_code h = 1 -> check_lin h (build h) = true.
+Definition acked_applied_b (h : history) : bool :=
+  forallb (fun o => negb (isW o && isOk o) || memZ (oid o) (map fst (agreed_log h))) (hops h).
+
+Lemma check_code_1 h : check_code h = 1 -> check_lin h (build h) = true /\ acked_applied_b h = true.
 Proof.
-  unfold check_code.
-  repeat match goal with
-         | |- context [if negb ?c then _ else _] => destruct c; cbn [negb]; try discriminate
-         end.
-  intros _. reflexivity.
+  unfold check_code, acked_applied_b.
+  destruct (forallb (fun o => negb (isW o && isOk o) || memZ (oid o) (map fst (agreed_log h))) (hops h)) eqn:E5.
+  - repeat match goal with
+           | |- context [if negb ?c then _ else _] => destruct c; cbn [negb]; try discriminate
+           end.
+    intros _. split; reflexivity.
+  - repeat match goal with
+           | |- context [if negb ?c then _ else _] => destruct c; cbn [negb]; try discriminate
+           end.
+Qed.
+
+Lemma longest_in l : forall acc, longest acc l = acc \/ In (longest acc l) l.
+Proof.
+  induction l as [|s r IH]; intros acc; simpl; [left; reflexivity|].
+  destruct (length acc <? length s)%nat.
+  - destruct (IH s) as [E|E]; [right; left; symmetry; exact E | right; right; exact E].
+  - destruct (IH acc) as [E|E]; [left; exact E | right; right; exact E].
 Qed.
 
 Lemma check_history_sound_lemma h : check_history h = true -> replicated_linearizable h.
 Proof.
-  unfold check_history. intros H. apply Z.eqb_eq in H. apply check_code_1 in H.
-  apply check_lin_sound in H. destruct H as [A B]. exists (build h). split; assumption.
+  unfold check_history. intros H. apply Z.eqb_eq in H. apply check_code_1 in H. destruct H as [H H5].
+  apply check_lin_sound in H. destruct H as [A B]. exists (build h). split; [exact A|]. split; [exact B|].
+  intros o Ho Hk Hok. unfold acked_applied_b in H5. rewrite forallb_forall in H5. specialize (H5 o Ho).
+  apply orb_true_iff in H5. destruct H5 as [H5|H5].
+  - apply negb_true_iff in H5. unfold isW, isOk in H5. rewrite Hk, Hok in H5. discriminate.
+  - apply memZ_In in H5. unfold agreed_log in H5.
+    destruct (longest_in (hstates h) []) as [E|E].
+    + rewrite E in H5. destruct H5.
+    + exists (longest [] (hstates h)). split; assumption.
 Qed.
 
 Lemma replicated_linearizable_linearizable h : replicated_linearizable h -> linearizable h.
 Proof. intros [lin [A _]]. exists lin. exact A. Qed.
+
+(* ---------- the state machine is "revealing": a result pins down the place in any linearization ---------- *)
+Definition wcount (l : list (op * Z)) : nat := length (filter is_write l).
+
+Lemma slen_cons x s : slen (x :: s) = slen s + 1.
+Proof. unfold slen. simpl length. lia. Qed.
+
+Lemma replay_reveals lin : forall s i o t,
+  seq_replay s lin -> nth_error lin i = Some (o, t) -> oout o = OOk ->
+  match okind o with
+  | KWrite => ores1 o = slen s + Z.of_nat (wcount (firstn i lin)) + 1
+  | KRead => ores1 o = slen s + Z.of_nat (wcount (firstn i lin))
+  end.
+Proof.
+  induction lin as [|[o' t'] r IH]; intros s i o t Hr Hn Hok.
+  - destruct i; discriminate.
+  - destruct i as [|i].
+    + simpl in Hn. inversion Hn; subst o' t'. simpl in Hr. unfold wcount. simpl.
+      destruct (okind o) eqn:K.
+      * destruct Hr as [_ [Hres _]]. destruct (Hres Hok) as [A _]. simpl. rewrite A. ring.
+      * destruct Hr as [[A _] _]. simpl. rewrite A. ring.
+    + simpl in Hn. simpl in Hr. unfold wcount. simpl firstn. simpl filter.
+      assert (is_write (o', t') = match okind o' with KWrite => true | KRead => false end) as W by reflexivity.
+      rewrite W. clear W.
+      destruct (okind o') eqn:K'.
+      * destruct Hr as [_ [_ Hr]]. specialize (IH _ _ _ _ Hr Hn Hok). rewrite slen_cons in IH.
+        simpl length. unfold wcount in IH. destruct (okind o); lia.
+      * destruct Hr as [_ Hr]. specialize (IH _ _ _ _ Hr Hn Hok). unfold wcount in IH. exact IH.
+Qed.
+
+Lemma revealing_order_unique_lemma h lin1 lin2 :
+  linearization h lin1 -> linearization h lin2 ->
+  forall o t1 t2 i j, nth_error lin1 i = Some (o, t1) -> nth_error lin2 j = Some (o, t2) -> oout o = OOk ->
+  wcount (firstn i lin1) = wcount (firstn j lin2).
+Proof.
+  intros [_ [_ [_ [_ R1]]]] [_ [_ [_ [_ R2]]]] o t1 t2 i j H1 H2 Hok.
+  pose proof (replay_reveals _ _ _ _ _ R1 H1 Hok) as A.
+  pose proof (replay_reveals _ _ _ _ _ R2 H2 Hok) as B.
+  unfold slen in A, B. simpl in A, B. destruct (okind o); lia.
+Qed.
